@@ -179,8 +179,8 @@ def oracle_factory(ctx):
 
 
 def campaign_grammar(ctx):
-    ctx.search(spec_bytes(), oracle_factory(ctx), ctx.budget(5000, 320000))
-campaign_grammar.shards = (4, 16)
+    ctx.search(spec_bytes(), oracle_factory(ctx), ctx.budget(20000, 320000))
+campaign_grammar.shards = (10, 16)
 
 
 # ---------------------------------------------------------------------------------------------
@@ -238,7 +238,7 @@ def campaign_gallery(ctx):
         blob = open(fmts[idx][2], "rb").read()
         return [idx, draw(mutated(blob[:draw(st.sampled_from([64, 256, 1024, len(blob)]))], max_ops=2))]
     if ctx.shard == 0:
-        ctx.search(mut_cases(), mut_oracle, ctx.budget(60, 1500), name="gallery-mutated", shrink=False)
+        ctx.search(mut_cases(), mut_oracle, ctx.budget(240, 1500), name="gallery-mutated", shrink=False)
 campaign_gallery.shards = (4, 8)
 
 
